@@ -1,8 +1,9 @@
 """C18 -- legacy reply parsers agree with the record API and respect caller limits.
 
 Oracle: specs/Legacy/LegacyView.tla (View(fn, mode, cap, msg)).
-  1. TLC (LegacyGen.tla) enumerates the message space (quick: BFS, every message of every family
-     up to 3 answer RRs; thorough: additionally -simulate with larger alphabets/bounds), checks the
+  1. TLC (LegacyGen.tla) enumerates the message space (BFS: every message of every family up to 3
+     answer RRs, and every in-order alias chain of 0..3 links x independently chosen TTLs x 1..2
+     addresses; thorough: additionally -simulate with larger alphabets/bounds), checks the
      invariants of the views on every message and prints every message + call plan as JSON.
   2. harness/legacy builds each message through the public record setters, serialises it, calls
      every planned legacy parser (capacities 0..N, all modes) on the bytes and on truncated /
@@ -443,6 +444,13 @@ def run(ctx):
     # 1. model check the views over the message space and get the vectors
     vecs, r = generate(ctx, "LegacyGen_quick.cfg", workers=8, timeout=600)
     ctx.log("LegacyGen (BFS): %d messages, all view invariants hold (%.1fs)" % (len(vecs), r.wall))
+    # exhaustive alias chains of 0..3 links with independently chosen (also non-monotonic) TTLs + addresses
+    vc, rc_ = generate(ctx, "LegacyGen_chain.cfg", workers=8, timeout=600)
+    ctx.log("LegacyGen (BFS, alias chains x TTL orders): %d messages, all view invariants hold (%.1fs)" %
+            (len(vc), rc_.wall))
+    have = set(canon(v["msg"]) for v in vecs)
+    vecs += [v for v in vc if canon(v["msg"]) not in have]
+    n_chain = len(vc)
     n_bfs = len(vecs)
     if not ctx.quick:
         vs, r2 = generate(ctx, "LegacyGen_sim.cfg", workers=8, timeout=900, simulate=6000, depth=10,
@@ -514,6 +522,7 @@ def run(ctx):
                        "recorded line without its id; non-trivial = the bytes were rejected by the record parser "
                        "(mutation) or the parsed answer section is non-empty")
     ctx.cov["messages_model_checked"] = n_bfs
+    ctx.cov["alias_chain_messages"] = n_chain
     ctx.cov["messages_per_family"] = fam_count
     ctx.cov["mutated_vectors"] = len(mut_ids)
     for v in (vecs[len(vecs) // 3], vecs[len(vecs) // 2], vecs[-1]):
